@@ -14,7 +14,7 @@ class Ctx:
         self.idx = idx
         self.fi = fi
         self.t = dsl.extract(fi, idx)
-        self.nctx = self.t.ctx(idx.enums)
+        self.nctx = self.t.ctx(idx.enums, property_aliases(idx, fi.cls))
         self.w = dl.Widths(idx, fi.cls, self.t, extra_bits)
         self.eng = dl.Engine(self.w, self.nctx)
         self.groups, self.tir = dl.group_drivers(self.t, self.nctx)
@@ -61,6 +61,27 @@ class Ctx:
         return out
 
 
+def property_aliases(idx, cls):
+    """self.<prop> -> self.<chain> for property getters that simply return an attribute chain of self."""
+    out = {}
+    if cls is None:
+        return out
+    for c in [cls] + idx.bases_of(cls):
+        for name, fs in c.methods.items():
+            for f in fs:
+                if not f.is_property:
+                    continue
+                body = [s for s in f.node.body if not (isinstance(s, ast.Expr) and isinstance(s.value, ast.Constant))]
+                if len(body) == 1 and isinstance(body[0], ast.Return) and body[0].value is not None:
+                    v = ir.from_ast(body[0].value, {})
+                    e = v
+                    while e[0] == 'attr':
+                        e = e[1]
+                    if e == ('name', 'self') and v != ('name', 'self'):
+                        out.setdefault(('attr', ('name', 'self'), name), v)
+    return out
+
+
 def _base_of(e):
     while e[0] == 'sub':
         e = e[1]
@@ -93,7 +114,9 @@ def check_dl(rep, rule, c, what, drivers, default, table, env=None, assume=None,
     env = env or {}
 
     def P(x):
-        return c.parse(x, env) if isinstance(x, str) else x
+        if isinstance(x, str):
+            return c.parse(x, env)
+        return x if x[0] == 'formula' else c.norm(x)
     tab = [(P(g), P(v)) for g, v in table]
     dflt = default if default == dl.HOLD else P(default)
     try:
@@ -144,4 +167,51 @@ def find_init_assign(cls, attr):
             if isinstance(t, ast.Attribute) and isinstance(t.value, ast.Name) and t.value.id == "self" \
                     and t.attr == attr:
                 return st
+    return None
+
+
+class CtorCtx(Ctx):
+    """The same symbolic walk applied to a constructor: gives local aliases, stores to self and calls."""
+
+    def __init__(self, idx, fi):
+        super().__init__(idx, fi)
+        self.stores = {}
+        for c in self.t.calls:
+            e = c[0]
+            if e[0] == 'store':
+                self.stores[ir.show(self.norm(e[1]))] = (self.norm(e[2]), c[1], c[3])
+
+    def stored(self, text):
+        r = self.stores.get(ir.show(self.parse(text)))
+        return None if r is None else r[0]
+
+    def calls_named(self, attr):
+        """(IR, gen frames, lineno) of call statements / sub-calls whose function is `<x>.attr` or `attr`."""
+        out = []
+        for e, gen, dsl_, ln in self.t.calls:
+            for x in ir.walk(e if e[0] != 'store' else e[2]):
+                if x[0] == 'call' and (x[1][0] == 'attr' and x[1][2] == attr or x[1] == ('name', attr)):
+                    out.append((self.norm(x), gen, ln))
+        return out
+
+
+def get_ctor(idx, cls_spec):
+    cls = idx.find_class(cls_spec) if isinstance(cls_spec, str) else cls_spec
+    fi = cls.method("__init__")
+    if fi is None:
+        from ..core.report import AnchorMissing
+        raise AnchorMissing(f"{cls.site} has no __init__")
+    key = (id(idx), fi.site, 'ctor')
+    if key not in _TCACHE:
+        _TCACHE[key] = CtorCtx(idx, fi)
+    return _TCACHE[key]
+
+
+def kwarg(call, name, pos=None):
+    """Value of keyword (or positional) argument of a ('call', ...) IR."""
+    for k, v in call[3]:
+        if k == name:
+            return v
+    if pos is not None and len(call[2]) > pos:
+        return call[2][pos]
     return None
